@@ -53,5 +53,25 @@ theorem C03_src_loop (r : Run α) (ff : Flags) (sf : Nat) (maxRange minStep : α
         | .ok l' => loop r ff sf (maxRange + minStep) maxRange fuel l'
       else .ok l := SrcLoop.loop_eq r ff sf maxRange minStep fuel l
 
+/-- THE WHOLE OF `_integrate`: the loop state it starts from (the statements before the `while`, executed symbolically: the wind
+    sock and the recording filter built by their own constructors, the muzzle state), the loop, and the row appended when fewer than
+    two rows were recorded -/
+theorem C03_src_integrate (r : Run α) (be maxRange rs : α) (ff : Flags) (ts : α) (fuel sf : Nat)
+    (hmax : r.maxWindDist = cMaxWindDistanceFeet) :
+    integrate r be maxRange rs ff ts fuel sf =
+      match loop r ff sf (maxRange + Src.min_step r.cfg.calcStep rs) maxRange fuel (Src.loop_init r be rs ts ff) with
+      | .error e => .error e
+      | .ok l =>
+        match l.rows with
+        | _ :: _ :: _ => .ok l.rows.reverse
+        | rows =>
+          match mkRow r l.s.time l.s.pos l.s.vel l.speed l.mach l.density l.drag fNONE with
+          | some row => .ok (row :: rows).reverse
+          | none => .error .zeroDiv := SrcLoop.integrate_eq r be maxRange rs ff ts fuel sf hmax
+
+theorem C03_src_final_row (r : Run α) (l : LoopSt α) (hm : nz l.mach = true) :
+    mkRow r l.s.time l.s.pos l.s.vel l.speed l.mach l.density l.drag fNONE = some (Src.final_row r l) :=
+  SrcLoop.final_row_eq r l hm
+
 end
 end BC.Props.C03
